@@ -29,6 +29,22 @@ CLAIMED = {
          "Trusted base: fmt_spec (self-checked on the documentation's own examples). yy on negative years, NUL and unterminated quotes are outside the oracle."),
  "C12": ("§5 C12", "Random (value, pattern) round trips with patterns drawn from an explicit unambiguous-field grammar; string-level fixpoint, instant/offset recovery when the pattern is complete, defaults for absent fields.",
          "The grammar (model/pattern_gen.rs) is the quantifier: patterns outside it are not judged."),
+ "C13": ("§5 C13", "Write side: local instants in years 1-9999 x whole-minute offsets x 5 precisions, output recognised by a hand-written RFC 3339 recogniser and mapped back to the instant; read side: ABNF-generated timestamps with every fraction length 0..=40, both entry points, plus single-field mutations that must be rejected.",
+         "Trusted base: model/rfc3339.rs (generator, recogniser, reader). Second 60, lower-case t/z and year 0000 are not judged."),
+ "C14": ("§5 C14", "Exhaustive enumeration of every short input over a hostile alphabet for each single symbol x width and of every short quote-shape pattern, plus mutation of real round-trip material, RFC 3339/FromStr/cron strings, range-end values with offsets and 10 000-character inputs; the only oracle is the outcome class (Ok with a valid value / Err / panic) in an overflow-checked and a release build.",
+         "Exhaustive only up to the stated lengths; beyond that mutational."),
+ "C15": ("§5 C15", "Boundary-dense argument grids and random tuples for every fallible constructor and setter; accept/reject compared with documented ranges + calendar model, error kind checked, and the range stated in the error text checked for consistency with what is accepted.",
+         "Which parameter is named when several are invalid, and wording, are not judged."),
+ "C16": ("§5 C16", "Grammar-generated expressions, every value/range/step/name per field, and all single-character edits of base expressions judged against a reference grammar; for accepted expressions the denoted sets are observed behaviourally by pinning the clock and asking next() one membership question per field value.",
+         "Needs the clock hook. Shapes the documentation does not settle (leading zeros, a-b/n, steps above the field size, ? L W #) are skipped."),
+ "C17": ("§5 C17", "Recorded histories of 4-40 next() calls under a pinned clock that advances arbitrarily between calls, checked event by event against an executable model (earliest matching minute after max(previous, now)); clone continuity.",
+         "Satisfiable schedules, non-decreasing clock, years 1-9999; needs the clock hook."),
+ "C18": ("§5 C18", "The vendored IANA corpus (fat + slim) and synthetic v1/v2/v3 files looked up at every transition -1/0/+1 s, every rule switch +-1 s over 16 years and random timestamps, compared with an RFC 8536 / POSIX-TZ reference that is itself cross-checked against CPython zoneinfo on the same lookups; a sample goes end-to-end through Offset::Local.",
+         "Needs the TZif and /etc/localtime hooks. Reference = model/tzif_ref.rs; CPython comparison skips footers using the zero-based n day form (CPython deviates from POSIX there)."),
+ "C19": ("§5 C19", "Fault enumeration over TZif structure: every header count x boundary values, every truncation point, every type index, version bytes, hostile and grammar-mutated footers, random damage; each accepted file is looked up across the whole DateTime range incl. both ends, and a sample is installed as /etc/localtime for Offset::Local.resolve().",
+         "Needs the TZif and /etc/localtime hooks. Only panics/hangs are violations."),
+ "C20": ("§5 C20", "Dates over the whole range (5-7 digit and negative years), every second of the day x offsets for Time, DateTimes in years 1-9999 x whole-minute offsets: Display vs documented rendering, FromStr, serde_json round trips; mutated strings must yield errors, not panics.",
+         "serde is exercised through serde_json only."),
 }
 def main():
     props = [json.loads(l) for l in open(os.path.join(VERIF, "properties.jsonl"))]
@@ -50,7 +66,7 @@ def main():
                 "evidence_file": "/verif/evidence/%s.json" % pid,
                 "replay_cmd_template": "./check --replay {path}",
                 "engine": "astromon",
-                "level_claimed": {"category": "exploration", "text": text, "design_ref": ref},
+                "level_claimed": {"category": "fault_enumeration" if pid == "C19" else "exploration", "text": text, "design_ref": ref},
                 "level_note": note,
                 "technique": "runtime monitoring: reference-model oracle + panic/overflow trap over generated and enumerated executions, two builds (overflow-checked and release)",
             })
